@@ -165,6 +165,14 @@ def run_C18(tier, seed):
             e = byid[tid]
             v.violation({'clauses': fails, 'event': {k: e[k] for k in e if k not in ('time', 'hist', 'out')}, 'columns': e['out'].get('columns'),
                          'rows': e['out'].get('rows') if e['ev'] == 'snapshot' else None})
+    # growth beyond the listed properties: documented error contracts of the public calls (reported as notes, never as a verdict)
+    from . import api_drv
+    aev = api_drv.events()
+    ares = validate('Trace_Api', aev, shards=1)
+    v.states += ares.states; v.transitions += ares.transitions
+    aby = {e['id']: e for e in aev}
+    v.extra['api_contract_events'] = len(aev)
+    v.extra['api_contract_mismatches'] = [{'clauses': f, 'event': aby[t]} for t, f in ares.fails.items() if f]
     v.distinct = len({(e['ev'], tuple(e.get('sel', [])), str(e['units']), e.get('t'), tuple(e['names']) if 'names' in e else ()) for e in evs})
     v.rule = ('real simulated powertrains (seeded random chains with force / stress / current variables recorded where the data allow); snapshot at recorded instants, between them and at both ends, target time in '
               'any time unit, variable selections {none, every singleton, every complement, pairs, random subsets' + ('' if tier == 'quick' else ', EVERY non-empty subset for the first six powertrains') +
